@@ -69,18 +69,20 @@ def build_cases(seed: int, deep: bool) -> List[Tuple[str, List[Dict[str, Any]], 
             cfgs = [base, dict(base, log_level=20, order="rev"), dict(base, timecode=True, log_level=40)]
         if deep and not heavy_case:
             cfgs += [dict(base, log_level=30, timing=False), dict(base, order="rev")]
-        if not deep and name.startswith(("cut_", "leave_", "ident_")):
+        if not deep and name.startswith(("cut_", "leave_", "ident_", "debug_")):
             cfgs = [cfgs[rng.randrange(len(cfgs))]]
         for i, cfg in enumerate(cfgs):
             cases.append((f"d.{name}.{i}", s.rounds, cfg, "both"))
-        # DEBUG log level: not modelled, the history-based Spec still applies (PROP only)
-        if deep or rng.random() < 0.15:
-            cases.append((f"d.{name}.dbg", s.rounds, dict(base, log_level=10), "prop"))
+        # DEBUG log level: every logger.debug call forwards an RTMA_LOG_DEBUG message (modelled since round 2)
+        if deep or name.startswith("debug_") or rng.random() < 0.3:
+            cases.append((f"d.{name}.dbg", s.rounds, dict(base, log_level=10), "both"))
+        if deep and name.startswith("debug_"):
+            cases.append((f"d.{name}.dbgr", s.rounds, dict(base, log_level=10, order="rev", timecode=True), "both"))
     subs = list(MG.subsets_scenarios())
     if not deep:
         subs = rng.sample(subs, 200)
     for name, s in subs:
-        cases.append((f"s.{name}", s.rounds, dict(base, order=rng.choice(["fwd", "rev"]), log_level=rng.choice([100, 100, 40])), "both"))
+        cases.append((f"s.{name}", s.rounds, dict(base, order=rng.choice(["fwd", "rev"]), log_level=rng.choice([100, 100, 40, 10])), "both"))
     n_rand = 3000 if deep else 260
     for i in range(n_rand):
         nc = rng.choice([2, 3, 4, 6, 8])
@@ -92,7 +94,7 @@ def build_cases(seed: int, deep: bool) -> List[Tuple[str, List[Dict[str, Any]], 
         cfg = MG.configs(rng, deep)
         cases.append((f"r.{i}", s.rounds, cfg, "both"))
         if rng.random() < 0.1:
-            cases.append((f"r.{i}.dbg", s.rounds, dict(cfg, log_level=10), "prop"))
+            cases.append((f"r.{i}.dbg", s.rounds, dict(cfg, log_level=10), "both"))
     if deep:
         for name, s in MG.heavy_scenarios():
             cases.append((f"h.{name}", s.rounds, base, "both"))
